@@ -27,7 +27,7 @@ Max(a, b) == IF a > b THEN a ELSE b
 Canon(C) == C.R * C.MSG                      \* canonical_max_read
 RBufLen(C) == C.R * C.MSG + HDR + C.MSG      \* read_buffer.len()
 EBufLen(C) == C.W * (C.MSG + HDR)            \* encrypt_buffer.len()
-SnowMax(C) == C.MSG - 1                      \* largest message snow accepts (65535)
+SnowMax(C) == C.MSG - 1                      \* largest message snow accepts (65535); the code chunks by CHUNK = MSG - 1 - TAG
 
 -----------------------------------------------------------------------------
 (* frames, attack plan, reader-side stream                                  *)
